@@ -80,6 +80,11 @@ def _eps(r):
     return 1.0 - 0.5 * float(np.exp(-(r[0] ** 2 + r[1] ** 2)))
 
 
+def _eps_t(r, *, t):
+    # time-dependent disorder (keyword-only t): a weak link that closes slowly
+    return 1.0 - 0.6 * float(np.exp(-((r[0] - 0.3) ** 2))) * min(max(t / 0.02, 0.0), 1.0)
+
+
 def _cur(t):
     return {"source": 1.0 + 0.1 * t, "drain": -(1.0 + 0.1 * t)}
 
@@ -106,7 +111,7 @@ def run(rep: common.Report, tier: str, seed: int, replay=None) -> int:
         for oi, ocfg in enumerate(option_grid(rng, tier)):
             kind = pk[oi % len(pk)]
             A = param_kinds[kind]()
-            eps = _eps if oi % 3 == 0 else 1.0
+            eps = _eps if oi % 3 == 0 else (_eps_t if oi % 3 == 1 and oi % 2 == 0 else 1.0)
             cur = _cur if oi % 4 == 0 else {"source": 1.0, "drain": -1.0}
             scr = ocfg["include_screening"]
             opts = runs.make_options(None, solve_time=0.012 if not scr else 0.006, dt_init=2e-3, dt_max=4e-3,
@@ -161,7 +166,9 @@ def run(rep: common.Report, tier: str, seed: int, replay=None) -> int:
                         okp = np.array_equal(va, vb) and (a == b) and (a.time_dependent == b.time_dependent)
                     elif callable(a):
                         arg = (0.37,) if nm == "terminal_currents" else ((0.1, 0.2),)
-                        ra, rb = a(*arg), b(*arg)
+                        import inspect as _insp
+                        kwt = {"t": 0.011} if "t" in _insp.getfullargspec(a).kwonlyargs else {}
+                        ra, rb = a(*arg, **kwt), b(*arg, **kwt)
                         okp = (dict(ra) == dict(rb)) if isinstance(ra, dict) else bool(np.array_equal(np.asarray(ra), np.asarray(rb)))
                     else:
                         okp = (a == b) if not isinstance(a, dict) else dict(a) == dict(b)
